@@ -72,6 +72,7 @@ constexpr unsigned NUM_BASE = CAP_ARITH | CAP_DIV | CAP_UNSIGNED | CAP_BITWISE |
                               CAP_UNREACHABLE | CAP_ASSERT | CAP_NONLINEAR | CAP_DISEQ | CAP_UNSTRUCTURED | CAP_CALL_INTRA;
 
 #if defined(VERIF_VARIANT_interval)
+#define VERIF_EXACT_GAMMA 1
 using dom_t = interval_dom_t;
 constexpr unsigned DOM_CAPS = NUM_BASE | CAP_BIGCONST;
 #elif defined(VERIF_VARIANT_constant)
@@ -90,42 +91,51 @@ constexpr unsigned DOM_CAPS = NUM_BASE | CAP_BIGCONST;
 using dom_t = dis_interval_dom_t;
 constexpr unsigned DOM_CAPS = NUM_BASE | CAP_BIGCONST;
 #elif defined(VERIF_VARIANT_dbm)
+#define VERIF_EXACT_GAMMA 1
 using dom_t = dbm_dom_t;
 constexpr unsigned DOM_CAPS = NUM_BASE;
 #define VERIF_CONST_CAP 1000000
 #define VERIF_INT64_WEIGHTS 1
 #elif defined(VERIF_VARIANT_sdbm)
+#define VERIF_EXACT_GAMMA 1
 using dom_t = sdbm_dom_t;
 constexpr unsigned DOM_CAPS = NUM_BASE;
 #define VERIF_CONST_CAP 1000000
 #define VERIF_INT64_WEIGHTS 1
 #elif defined(VERIF_VARIANT_sdbm_ss)
+#define VERIF_EXACT_GAMMA 1
 using dom_t = split_dbm_domain<z_number, varname_t, z_graph_ss_t>;
 constexpr unsigned DOM_CAPS = NUM_BASE;
 #define VERIF_CONST_CAP 1000000
 #define VERIF_INT64_WEIGHTS 1
 #elif defined(VERIF_VARIANT_sdbm_pt)
+#define VERIF_EXACT_GAMMA 1
 using dom_t = split_dbm_domain<z_number, varname_t, z_graph_pt_t>;
 constexpr unsigned DOM_CAPS = NUM_BASE;
 #define VERIF_CONST_CAP 1000000
 #define VERIF_INT64_WEIGHTS 1
 #elif defined(VERIF_VARIANT_sdbm_ht)
+#define VERIF_EXACT_GAMMA 1
 using dom_t = split_dbm_domain<z_number, varname_t, z_graph_ht_t>;
 constexpr unsigned DOM_CAPS = NUM_BASE;
 #define VERIF_CONST_CAP 1000000
 #define VERIF_INT64_WEIGHTS 1
 #elif defined(VERIF_VARIANT_sdbm_z)
+#define VERIF_EXACT_GAMMA 1
 using dom_t = split_dbm_domain<z_number, varname_t, big_graph_t>;
 constexpr unsigned DOM_CAPS = NUM_BASE | CAP_BIGCONST;
 #elif defined(VERIF_VARIANT_soct_z)
+#define VERIF_EXACT_GAMMA 1
 using dom_t = split_oct_domain<z_number, varname_t, big_graph_t>;
 constexpr unsigned DOM_CAPS = NUM_BASE | CAP_BIGCONST;
 #elif defined(VERIF_VARIANT_sdbm_safe)
+#define VERIF_EXACT_GAMMA 1
 using dom_t = split_dbm_domain<z_number, varname_t, safe_graph_t>;
 constexpr unsigned DOM_CAPS = NUM_BASE;
 #define VERIF_CONST_CAP 1000000
 #define VERIF_INT64_WEIGHTS 1
 #elif defined(VERIF_VARIANT_soct)
+#define VERIF_EXACT_GAMMA 1
 using dom_t = soct_dom_t;
 constexpr unsigned DOM_CAPS = NUM_BASE;
 #define VERIF_CONST_CAP 1000000
@@ -189,6 +199,14 @@ constexpr unsigned DOM_CAPS = NUM_BASE | CAP_ARRAY;
 #elif defined(VERIF_VARIANT_as_bool_int)
 using dom_t = as_bool_int_dom_t;
 constexpr unsigned DOM_CAPS = NUM_BASE | CAP_BIGCONST | CAP_ARRAY | CAP_BOOL;
+#elif defined(VERIF_VARIANT_pack_sdbm)
+using dom_t = numerical_packing_domain<sdbm_dom_t>;
+constexpr unsigned DOM_CAPS = NUM_BASE;
+#define VERIF_CONST_CAP 1000000
+#define VERIF_INT64_WEIGHTS 1
+#elif defined(VERIF_VARIANT_pack_int)
+using dom_t = numerical_packing_domain<interval_dom_t>;
+constexpr unsigned DOM_CAPS = NUM_BASE | CAP_BIGCONST;
 #elif defined(VERIF_VARIANT_wint)
 using dom_t = wrapped_interval_domain<z_number, varname_t>;
 constexpr unsigned DOM_CAPS = (NUM_BASE & ~CAP_CALL_INTRA) | CAP_SIMPLE_CST | CAP_BIGCONST;
